@@ -107,9 +107,9 @@ func (p *streamstatsProcessor) Process(iqr *iqr.IQR) (*iqr.IQR, error) {
 		knownValues[resultCol] = make([]sutils.CValueEnclosure, iqr.NumberOfRecords())
 	}
 
+	// currentIndex and currentBucketKey carry over from the previous batch: the
+	// window and reset_on_change are defined over the whole stream, not per batch.
 	bucketKey := ""
-	p.currentBucketKey = bucketKey
-	p.currentIndex = 0
 
 	for i := 0; i < iqr.NumberOfRecords(); i++ {
 		record := make(map[string]interface{})
